@@ -579,9 +579,12 @@ func runServerScenario(t *testing.T, sc *srvScenario, pickFn func(n int) int, sk
 						err := r.srv.Notify(context.Background(), "nm", []string{tag})
 						r.logf("nfyreturn %s %v", tag, err)
 					}()
-				case "callback":
+				case "callback", "callbackbg":
 					tag := op.Arg
 					cctx, cancel := context.WithCancel(context.Background())
+					if op.Kind == "callbackbg" { // a context that can never end: only a reply or the server's stop ends the call
+						cctx, cancel = context.Background(), func() {}
+					}
 					r.hmu.Lock()
 					r.cbCancel[tag] = cancel
 					r.hmu.Unlock()
